@@ -108,7 +108,7 @@ func (p *propC05) Assumptions() []string {
 	}
 }
 func (p *propC05) ProbeNames() []string {
-	return []string{"union definition wider than every single message", "array padded", "out-of-domain value encoded", "stale Header.CRC overwritten", "Encode failed on out-of-domain File", "header with CRC", "big endian", "preceded by a failed Encode", "re-encoded after a header change"}
+	return []string{"union definition wider than every single message", "array padded", "out-of-domain value encoded", "stale Header.CRC overwritten", "header with CRC", "big endian", "preceded by a failed Encode", "re-encoded after a header change"}
 }
 
 func (p *propC05) Prepare(seed uint64, tier string) int {
